@@ -59,6 +59,19 @@ def gen_cases(c, rng, shard):
     if not c.custom:
         for a in harness.novel_products(c, rng):
             yield "source_literals", a
+        # short allocation lengths (0..40: inside, at and between the fields of every fixed header) with every value of each
+        # small field (a data type, a format selector) - the other arguments drawn
+        alloc_names = [k for k, spec in c.args.items() if spec[0] == "alloc"]
+        small_names = [k for k, spec in c.args.items() if spec[0] == "u" and 1 < spec[1] <= 4]
+        for an in alloc_names:
+            for n_ in range(0, 41):
+                for sn in small_names or [None]:
+                    for v in (range(1 << c.args[sn][1]) if sn else [None]):
+                        a = harness.random_args(c, rng, cap=2048)
+                        a[an] = n_
+                        if sn:
+                            a[sn] = v
+                        yield "short_allocation_lengths", a
     for i in range(shard["nrand"]):
         a = harness.random_args(c, rng)
         yield "rand", a
